@@ -1971,7 +1971,14 @@ impl Checker {
                     // finding c04:short-name-not-first-accepted): the element has no item name, the index holds a path for it
                     let first = v.remove(0);
                     v = vec![Failure::known("C04", SIG_SN_NOT_FIRST, format!("after `{}` (an element whose SHORT-NAME is not its first sub-element is part of the model): {}", req.chars().take(60).collect::<String>(), first.msg))];
-                } else if !v.is_empty() && container_op {
+                } else if !v.is_empty() && container_op && {
+                    // what the finding says: after the operation two reachable identifiable elements have one path
+                    snaps.iter().any(|s| {
+                        let mut ps: Vec<String> = s.pre.iter().filter(|(_, e, _)| e.is_identifiable()).filter_map(|(_, e, _)| e.path().ok()).collect();
+                        ps.sort();
+                        ps.windows(2).any(|w2| w2[0] == w2[1])
+                    })
+                } {
                     let first = v.remove(0);
                     v = vec![Failure::known("C04", SIG_COLLISION, format!("after `{req}` (subject is not identifiable): {}", first.msg))];
                     self.stop_c456 = true;
